@@ -438,8 +438,18 @@ func runC20(p *Plan) *Result {
 			}
 			firstUse()
 			cfg := w.Filters[0].Cfg
-			c1, e1 := w.Rep.tlsPool.LoadTLSConfig(cfg)
-			c2, e2 := w.Rep.tlsPool.LoadTLSConfig(proto.Clone(cfg).(*oidcv1.OIDCConfig))
+			var c1, c2 *tls.Config
+			var e1, e2 error
+			func() {
+				defer func() {
+					if r := recover(); r != nil {
+						viol("tls-pool-lock-never-released", fmt.Sprintf("LoadTLSConfig could not take the pool lock within the step budget: %v", r))
+						e1 = fmt.Errorf("%v", r)
+					}
+				}()
+				c1, e1 = w.Rep.tlsPool.LoadTLSConfig(cfg)
+				c2, e2 = w.Rep.tlsPool.LoadTLSConfig(proto.Clone(cfg).(*oidcv1.OIDCConfig))
+			}()
 			if e1 == nil && e2 == nil && c1 != c2 {
 				viol("identical-settings-do-not-share-one-configuration", "LoadTLSConfig returned different *tls.Config for identical settings")
 			}
@@ -464,6 +474,13 @@ func runC20(p *Plan) *Result {
 		r := w.result()
 		r.Infra = "generated configuration was rejected: " + w.Rep.BootErr.Error()
 		return r
+	}
+	for _, bp := range takeBgPanics() {
+		if strings.Contains(bp, "simsync") {
+			viol("tls-pool-lock-never-released", "a CA reload callback could not take the pool lock within the step budget: "+bp)
+		} else {
+			viol("panic-in-background-goroutine", bp)
+		}
 	}
 	res := w.result().only("C20")
 	res.Nontrivial = w.Probes["handshakes"] > 0
